@@ -177,6 +177,12 @@ class _Inconsistent(Exception):
     pass
 
 
+def _quiet_env():
+    import os
+
+    return dict(os.environ, LLVM_DISABLE_CRASH_REPORT="1", LLVM_DISABLE_SYMBOLIZATION="1")  # a crash dies fast
+
+
 def _run_positional(target, blobs):
     exe = llvm_mc()
     if exe is None:
@@ -190,7 +196,7 @@ def _run_positional(target, blobs):
     cmd += extra
     lines = [b + pad for b in blobs]
     src = "\n".join(" ".join("0x%02x" % x for x in ln) for ln in lines) + "\n"
-    p = subprocess.run(cmd, input=src.encode(), capture_output=True)
+    p = subprocess.run(cmd, input=src.encode(), capture_output=True, env=_quiet_env())
     err = p.stderr.decode(errors="replace")
     if p.returncode < 0 or "PLEASE submit a bug report" in err:
         raise _Crashed(err[:300])
@@ -251,7 +257,28 @@ def _run_positional(target, blobs):
     return results
 
 
+def _msp430_crasher(blob):
+    """PUSH(.B) @Rn / @Rn+ with n in {1, 4..15} (first word 0x122n / 0x123n / 0x126n / 0x127n) kills
+    llvm-mc 14 ('stack smashing detected'); found by running all first words 0x1000..0x13ff."""
+    if len(blob) < 2:
+        return False
+    w = blob[0] | (blob[1] << 8)
+    return w & 0xFFA0 == 0x1220 and (w & 15) not in (0, 2, 3)
+
+
+KNOWN_CRASHERS = {"msp430": _msp430_crasher}
+
+
 def _decode_positional(target, data):
+    pred = KNOWN_CRASHERS.get(target)
+    if pred is not None and any(pred(b) for b in data):
+        keep = [i for i, b in enumerate(data) if not pred(b)]
+        CRASHES[target + "/known crasher skipped"] = CRASHES.get(target + "/known crasher skipped", 0) + len(data) - len(keep)
+        res = [None] * len(data)
+        if keep:
+            for i, r in zip(keep, _decode_positional(target, [data[i] for i in keep])):
+                res[i] = r
+        return res
     try:
         return _run_positional(target, data)
     except (_Crashed, _Inconsistent) as e:
